@@ -52,6 +52,54 @@ def run(chk: Check, proj: Project) -> None:
     s2(chk, proj, w)
     s3(chk, proj, w)
     s4(chk, proj, w)
+    s5_merge_repeated(chk, proj, w)
+
+
+def s5_merge_repeated(chk: Check, proj: Project, w) -> None:
+    chk.rule("S5", "merge_repeated_kwargs: the remembered position of a key indexes the OUTPUT list it is applied to; every further repeat is appended to the already merged value")
+    m, f = proj.func("util.template_tag", "merge_repeated_kwargs")
+    chk.analysed(fkey(m, f))
+    rets = [r for r in stmts(f) if isinstance(r, ast.Return) and isinstance(r.value, ast.Name)]
+    if not rets:
+        chk.undecided("S5", "util.template_tag:merge_repeated_kwargs:shape", m.loc(f), "no `return <list>`")
+        return
+    out = norm(rets[-1].value)
+    # replacement store: out[<idx>] = <copy>
+    repl = [x for x in stmts(f) if isinstance(x, ast.Assign) and isinstance(x.targets[0], ast.Subscript) and norm(x.targets[0].value) == out]
+    if len(repl) != 1 or not isinstance(repl[0].targets[0].slice, ast.Name):
+        chk.undecided("S5", "util.template_tag:merge_repeated_kwargs:shape", m.loc(f), "replacement store into the output list not recognised")
+        return
+    idxv = repl[0].targets[0].slice.id
+    d = assignments(f, idxv)
+    src = d[0][1] if len(d) == 1 else None
+    idx_map = norm(src.value) if isinstance(src, ast.Subscript) else None
+    rec = [x for x in stmts(f) if isinstance(x, ast.Assign) and isinstance(x.targets[0], ast.Subscript) and norm(x.targets[0].value) == idx_map]
+    ok = len(rec) == 1 and norm(rec[0].value) == f"len({out})"
+    if ok:
+        # ... recorded right before the append of that same element
+        blk = next((b for a in ancestors(rec[0]) for b in (getattr(a, "body", None), getattr(a, "orelse", None)) if isinstance(b, list) and rec[0] in b), [])
+        i = blk.index(rec[0]) if rec[0] in blk else -1
+        ok = i >= 0 and any(isinstance(x, ast.Expr) and norm(x).startswith(f"{out}.append(") for x in blk[i + 1:]) and not any(isinstance(x, ast.Expr) and norm(x).startswith(f"{out}.append(") for x in blk[:i])
+    chk.ob("S5", "util.template_tag:merge_repeated_kwargs:index-frame", m.loc(rec[0]) if rec else m.loc(f), ok,
+           f"the position remembered per key is len({out}) at the moment the first occurrence is appended (an index into the output list)" if ok else
+           f"the position remembered per key (`{short(rec[0]) if rec else '?'}`) is not an index into `{out}`, the list it is later applied to: once an earlier keyword has been merged the output list is shorter than the input, so two different repeated keywords raise IndexError or overwrite the wrong parameter")
+    # the value a repeat is appended to is the merged copy kept per key
+    cp = repl[0].value
+    cpn = norm(cp) if isinstance(cp, ast.Name) else None
+    cd = assignments(f, cpn) if cpn else []
+    origv = None
+    if cd and isinstance(cd[0][1], ast.Call):
+        for k in cd[0][1].keywords:
+            if k.arg == "value":
+                origv = next((x.id for x in ast.walk(k.value) if isinstance(x, ast.Name) and x.id not in ("str",)), None)
+    od = assignments(f, origv) if origv else []
+    by_key = norm(od[0][1].value) if od and isinstance(od[0][1], ast.Subscript) else None
+    keeps = by_key is not None and any(isinstance(x, ast.Assign) and isinstance(x.targets[0], ast.Subscript) and norm(x.targets[0].value) == by_key and norm(x.value) == cpn for x in stmts(f))
+    aug = [x for x in stmts(f) if isinstance(x, ast.AugAssign) and isinstance(x.op, ast.Add)]
+    app_ok = bool(aug) and by_key is not None and norm(aug[-1].target).startswith(f"{by_key}[") and norm(aug[-1].value).startswith("' ' + ")
+    chk.ob("S5", "util.template_tag:merge_repeated_kwargs:repeats-extend-merged-value", m.loc(od[0][0]) if od else m.loc(f), bool(keeps and app_ok),
+           "the copy is made from the per-key entry (which holds the merged value so far), stored back, and every repeat is appended to it with one space" if keeps and app_ok else
+           "a repeat is merged onto a fresh copy of the ORIGINAL parameter instead of the value merged so far: with three or more occurrences the middle ones are lost (class=a class=b class=c gives 'a c')")
 
 
 def _sanitised(e: ast.AST, sources: Set[str]) -> Tuple[bool, str]:
